@@ -255,7 +255,12 @@ func repeating(symbols []pr.NamedString, value int) (string, bool) {
 	if len(symbols) == 0 {
 		return "", false
 	}
-	return symbol(symbols[(value-1)%len(symbols)]), true
+	// the cyclic system is defined over all integers: use the non-negative remainder
+	index := (value - 1) % len(symbols)
+	if index < 0 {
+		index += len(symbols)
+	}
+	return symbol(symbols[index]), true
 }
 
 // Implement the algorithm for `type: non-repeating`.
